@@ -142,9 +142,15 @@ impl TW for Imp {
 #[cglue_trait]
 pub trait TM {
     fn m_base(&mut self, a: u64) -> u64;
+    fn m_where(&self, a: u64) -> u64 where Self: Sized { a ^ 0xDEFA }
+    fn m_where_generic_bound(&mut self, a: u64) -> u64 where u64: Copy { a }
     fn m_mutarg(&mut self, mut a: u64, mut b: u32) -> u64 { a = a.rotate_left(b % 64); b = b.wrapping_add(1); self.m_base(a ^ b as u64) }
 }
-impl TM for Imp { fn m_base(&mut self, a: u64) -> u64 { self.step(55, 49, a) } }
+impl TM for Imp {
+    fn m_base(&mut self, a: u64) -> u64 { self.step(55, 49, a) }
+    fn m_where(&self, a: u64) -> u64 { self.step(56, 51, a) }
+    fn m_where_generic_bound(&mut self, a: u64) -> u64 { self.step(57, 53, a) }
+}
 /// builtin external trait
 impl AsRef<u64> for Imp { fn as_ref(&self) -> &u64 { let _ = self.step(60, 47, 0); &self.id } }
 
